@@ -684,6 +684,12 @@ class Evaluator:
         if len(alts) != 1 or alts[0][0]:
             raise Unreadable("conditional iterable")
         cv = alts[0][1]
+        if form == "plain" and isinstance(cv, Rat) and isinstance(cv.single_atom(), tuple) and len(cv.single_atom()) == 2 \
+                and cv.single_atom()[0] in ("keys", "items", "values") and not isinstance(cv.single_atom()[1], str):
+            # `ks = d.keys(); for k in ks` is `for k in d.keys()`
+            inner = cv.single_atom()[1]
+            form = cv.single_atom()[0]
+            cv = inner[1] if isinstance(inner, tuple) and inner and inner[0] == "objdict" else Rat.atom(inner)
         if isinstance(cv, Seq) or isinstance(cv, Tup):
             # iterating a literal / comprehension: elements are the loop variable itself
             form = "plain" if form == "plain" else form
@@ -1508,7 +1514,10 @@ class Evaluator:
                             and isinstance(node.value, ast.Subscript) and ast.dump(node.value.value) == ast.dump(src) \
                             and isinstance(node.value.slice, ast.Name) and node.value.slice.id == g[0].target.id:
                         return [(frozenset(), it)]
-            raise Unreadable("dict comprehension")
+            # general form: the mapping is determined by the sequence of its (key, value) pairs
+            pairs = ast.ListComp(elt=ast.Tuple(elts=[node.key, node.value], ctx=ast.Load()), generators=node.generators)
+            sq = self.comp(pairs, env, ctx)
+            return [(frozenset(), Rat.atom(("dictcomp", as_term(sq))))]
         raise Unreadable(f"expression {type(node).__name__}: {ast.unparse(node)[:60]} in {ctx.f.qualname}")
 
     def comp(self, node, env, ctx):
